@@ -343,3 +343,17 @@ Proof.
   apply (schedule_independent V (asset_own n) n tasks m0 Hr Hc c St Fin l).
   intro t. apply asset_own_no_scratch.
 Qed.
+
+(* ------------------------------------------------------------------ hidden per-thread state breaks the hypothesis *)
+Lemma tl_task_not_clean : ~ scratch_clean (site_owner tl_site) 2 tl_task.
+Proof.
+  intro H.
+  specialize (H 0%nat 0%nat 0%nat (fun _ : loc => 0%Z) (fun l : loc => if loc_eqb l (22%Z, 0%Z) then 5%Z else 0%Z)).
+  assert (Hlt : (0 < 2)%nat) by (repeat constructor).
+  specialize (H Hlt).
+  assert (A : forall l : loc, site_owner tl_site l = ORead \/ site_owner tl_site l = OTask 0 ->
+                (fun _ : loc => 0%Z) l = (fun l0 : loc => if loc_eqb l0 (22%Z, 0%Z) then 5%Z else 0%Z) l).
+  { intros l Ho. cbv beta. destruct (loc_eqb l (22%Z, 0%Z)) eqn:E; [|reflexivity]. exfalso.
+    apply loc_eqb_eq in E. subst l. vm_compute in Ho. destruct Ho as [Ho|Ho]; discriminate. }
+  specialize (H A (1%Z, 0%Z) eq_refl). vm_compute in H. discriminate.
+Qed.
